@@ -343,3 +343,48 @@ func VerifGetOrCreateUnrouted() {
 	symapi.Assert(sc == 0, "nothing-registered")
 	symapi.Reach("end")
 }
+
+// VerifRegistRace (C05): two publishers register on one path at the same time. Afterwards the
+// path resolves to exactly one of them and the other one has been retired (closed, as it has
+// no consumers) - for every interleaving.
+func VerifRegistRace() {
+	a, b := verifStream("/a"), verifStream("/a")
+	symapi.Go(func() { Regist(a) })
+	Regist(b)
+	symapi.Quiesce()
+	cur := Get("/a")
+	symapi.Assert(cur == a || cur == b, "path-resolves-to-one-of-the-publishers")
+	other := a
+	if cur == a {
+		other = b
+	}
+	symapi.Assert(!verifClosed(cur), "winner-is-live")
+	symapi.Assert(verifClosed(other), "loser-is-retired")
+	sc, _ := Count()
+	symapi.Assert(sc == 1, "one-stream-counted")
+	symapi.Reach("end")
+}
+
+// VerifPullRace (C05 / C20): two first requests for one routed path at the same time: both
+// may pull, but they end with one registered live stream and the other pulled stream retired.
+func VerifPullRace() {
+	f := &verifPullFactory{}
+	psFactories = []PullStreamFactory{f}
+	route.Save(&route.Route{Pattern: "/pull/a", URL: "fake://cam/a", KeepAlive: true})
+	var s1, s2 *Stream
+	symapi.Go(func() { s1 = GetOrCreate("/pull/a") })
+	s2 = GetOrCreate("/pull/a")
+	symapi.Quiesce()
+	symapi.Assert(s1 != nil && s2 != nil, "both-requesters-get-a-stream")
+	cur := Get("/pull/a")
+	symapi.Assert(cur != nil && !verifClosed(cur), "one-live-stream-registered")
+	live := 0
+	for _, s := range f.created {
+		if !verifClosed(s) {
+			live++
+			symapi.Assert(s == cur, "only-the-registered-stream-stays-live")
+		}
+	}
+	symapi.Assert(live == 1, "exactly-one-pulled-stream-survives")
+	symapi.Reach("end")
+}
